@@ -3,7 +3,7 @@ From Coq Require Import List ZArith Bool Arith Lia.
 Import ListNotations.
 From SAV.orm Require Import SessTxn SessTxnBase SessTxnSpec SessTxnInv SessTxnOps SessTxnRestore SessTxnRestore2
   SessTxnShift SessTxnStmts SessTxnFlush SessTxnDbInv SessTxnCore SessTxnFlushCore SessTxnTx SessTxnCommit SessTxnObjOps
-  SessTxnNested.
+  SessTxnNested SessTxnClose.
 Open Scope nat_scope.
 
 Lemma inv_init : forall e, Inv (sess0 e).
@@ -23,18 +23,11 @@ Proof.
   apply orb_false_iff in H. destruct H as [H1 H2]. rewrite H1. auto.
 Qed.
 
-(* the operations covered by the proof so far *)
-Definition covered (st : sess) (p : op) : bool :=
-  match p with
-  | OClose => false
-  | _ => true
-  end.
-
-Theorem do_op_inv : forall st p r st', Inv st -> guard st p = true -> covered st p = true ->
+Theorem do_op_inv : forall st p r st', Inv st -> guard st p = true ->
   do_op p st = (r, st') -> r <> Unmodelled ->
   Inv st' /\ (is_boundary p = true -> r = Ok -> is_clean st' = true).
 Proof.
-  intros st p r st' [gs C] Hg Hc H Hr. unfold Inv.
+  intros st p r st' [gs C] Hg H Hr. unfold Inv.
   assert (NB : forall X : Prop, X -> is_boundary p = false -> X /\ (is_boundary p = true -> r = Ok -> is_clean st' = true)).
   { intros X x E. split; auto. intros Y. congruence. }
   assert (Hu : match p with ONew _ _ | OAdd _ | OSetV _ _ | OSetPK _ _ | ODel _ => head_usable st = true | _ => True end).
@@ -66,7 +59,7 @@ Proof.
     cbn [do_op] in H. unfold guard in Hg. cbn in Hg.
     destruct (nth_error (handles st) h) as [[n|]|] eqn:En;
       [|inversion H; subst; split; [eauto|intros _ Y; discriminate]|inversion H; subst; congruence].
-    destruct (t_commit_core st gs n r st' C Hg H Hr) as [gs' [C' B]]. split; eauto.
+    destruct (t_commit_core st gs n r st' C Hg H Hr) as [gs' [C' [B _]]]. split; eauto.
   - (* handle.rollback() *)
     cbn [do_op] in H. unfold guard in Hg. cbn in Hg.
     destruct (nth_error (handles st) h) as [[n|]|] eqn:En;
@@ -79,7 +72,8 @@ Proof.
       rewrite E in H. inversion H; subst. eauto.
     + apply negb_true_iff in Hg. rewrite (t_rollback_gone st n (find_frame_none st n Hg)) in H. inversion H; subst.
       split; [eauto|intros _ Y; discriminate].
-  - discriminate.
+  - (* Session.close() *)
+    destruct (op_close_core st gs r st' C Hg H Hr) as [_ [C' _]]. apply NB; eauto.
   - apply NB; auto. eapply op_load_core; eauto.
 Qed.
 
@@ -92,13 +86,8 @@ Proof.
   rewrite Hn in X. destruct X.
 Qed.
 
-(* histories of guarded, covered operations *)
-Inductive CReach (e : bool) : sess -> Prop :=
-  | creach_init : CReach e (sess0 e)
-  | creach_step : forall st p r st', CReach e st -> guard st p = true -> covered st p = true ->
-      do_op p st = (r, st') -> r <> Unmodelled -> CReach e st'.
-
-Theorem creach_inv : forall e st, CReach e st -> Inv st.
+(* every state of a guarded history (SessTxnSpec.GReach) satisfies the invariant *)
+Theorem greach_inv : forall e st, GReach e st -> Inv st.
 Proof.
   intros e st H. induction H; [apply inv_init|]. eapply do_op_inv; eauto.
 Qed.
@@ -106,12 +95,12 @@ Qed.
 (* T2, the guarded theorem: at EVERY point of a guarded history the session agrees with the rows its
    transaction sees; after every successful commit/rollback (outer or savepoint) nothing is pending,
    modified or marked for deletion *)
-Theorem agreement_guarded : forall e st p r st', CReach e st -> guard st p = true -> covered st p = true ->
+Theorem agreement_guarded : forall e st p r st', GReach e st -> guard st p = true ->
   do_op p st = (r, st') -> r <> Unmodelled ->
   agrees st' = true /\ (is_boundary p = true -> r = Ok -> is_clean st' = true /\ no_pending st' = true).
 Proof.
-  intros e st p r st' R Hg Hc H Hr.
-  destruct (do_op_inv st p r st' (creach_inv e st R) Hg Hc H Hr) as [[gs C] B].
+  intros e st p r st' R Hg H Hr.
+  destruct (do_op_inv st p r st' (greach_inv e st R) Hg H Hr) as [[gs C] B].
   split; [apply Good_agrees; exact (c_good _ _ C)|].
   intros X Y. specialize (B X Y). split; auto.
   apply Good_no_pending; [exact (c_good _ _ C)|].
